@@ -166,5 +166,14 @@ impl RelativeJump {
 }
 
 
+// bindings of the core word table (Rword)
+//@use corewords.fns State::load_core#w_dup
+//@use corewords.fns State::load_core#w_drop
+//@use corewords.fns State::load_core#w_swap
+//@use corewords.fns State::load_core#w_depth
+//@use corewords.fns State::load_core#w_assert
+//@use corewords.fns State::load_core#w_rot
+//@use corewords.fns State::load_core#w_over
+
 } // verus!
 fn main() {}
